@@ -404,7 +404,9 @@ def split_uri(uri):
     else:
         try:
             scheme, netloc, path, query, fragment = parse.urlsplit(uri)
-        except UnicodeError:
+        except ValueError:
+            # UnicodeError, but also e.g. "Invalid IPv6 URL" for a target
+            # like http://[/
             raise ParsingError("Bad URI")
 
     return (
